@@ -24,6 +24,15 @@ static int run_case(const std::string& text)
   argv.push_back(nullptr);
   int argc = static_cast<int>(args.size());
   setvbuf(stdout, nullptr, _IOLBF, 0);
+  if (sc.contains("pad")) { // shift the heap (addresses and hash values of everything allocated later) by a case-chosen amount
+    long pad       = sc["pad"].get<long>();
+    static void* a = malloc(pad);
+    static std::vector<void*> small;
+    for (long i = 0; i < pad % 97; i++)
+      small.push_back(malloc(24 + 8 * (i % 5)));
+    if (a != nullptr)
+      memset(a, 1, pad);
+  }
   sg4::Engine e(&argc, argv.data());
   vf::setup(e, sc, false);
   if (sc.contains("horizon"))
